@@ -484,7 +484,12 @@ class C03(Prop):
             "the five macros, has(), dyn(), with bindings of every CEL kind; plus every expression of features/*.feature with its "
             "evaluable bindings/container; plus absorbing contexts (true || e, false && e, c ? e : e, has(e.f), [..].all/exists) wrapped "
             "around error-raising leaves; plus the primitive pool (op x pool^arity) for PrimLaws and driver fidelity. Each expression is "
-            "run on both real runners and (inside the model's fragment) both Lean evaluators. non-trivial = distinct expression "
+            "run on both real runners and (inside the model's fragment) both Lean evaluators. Round 2: every macro over every "
+            "sequence of element outcomes true/false/raises up to length 3 (4 in thorough; five ways of raising) plus random longer "
+            "ones; identifier spellings (Python keywords, soft keywords, CEL reserved words, builtins, dunder names) as variable and "
+            "macro variable; activations with dotted names (namespaces) and missing members in absorbing contexts; histories: one "
+            "Environment, programs built once, evaluated over sequences of activations binding different variable sets. "
+            "non-trivial = distinct expression "
             "containing a short-circuit operator, macro or has(), or with an error outcome on either runner")
 
     def setup(self):
@@ -972,14 +977,14 @@ def seq_case(rng: random.Random, macro: str, style: str, seq: str, ctx: Optional
 def macro_seq_cases(rng: random.Random, quick: bool) -> List[Dict[str, Any]]:
     out = []
     styles = sorted(SEQ_STYLES)
-    full = 3 if quick else 5
+    full = 3 if quick else 4
     seqs = [""] + ["".join(p) for n in range(1, full + 1) for p in itertools.product("TFE", repeat=n)]
     for macro in A.MACROS:
         for seq in seqs:
             for st in (rng.sample(styles, 2) if quick else styles):
                 out.append(seq_case(rng, macro, st, seq, ctx="@" if rng.random() < 0.6 else None))
     # longer sources: random outcome sequences, matches before / after / between failing elements
-    for _ in range(250 if quick else 6000):
+    for _ in range(250 if quick else 3000):
         n = rng.randint(full + 1, full + 3)
         seq = "".join(rng.choice("TTFFE") for _ in range(n))
         out.append(seq_case(rng, rng.choice(A.MACROS), rng.choice(styles), seq, var=rng.choice(["x", "x", "e", "it"])))
